@@ -74,6 +74,8 @@ def classify(diags, text, table):
             continue
         is_obl = any(k in msg for k in OBLIGATION_MSGS)
         spans = d.get('spans', [])
+        if 'esource limit' in msg:
+            continue        # solver budget exhausted: handled by the caller (retry with a larger budget, else undecided)
         if not is_obl:
             front.append(dict(msg=msg, rendered=d.get('rendered', '')))
             continue
@@ -130,8 +132,12 @@ def verify_unit(template, repo_root, workdir, unit_name):
     # rlimit / timeouts are reported as errors with "Resource limit" message
     for d in diags:
         if d.get('level') == 'error' and 'esource limit' in d.get('message', ''):
-            res2, diags2, wall2, cmd2, _ = run_verus(path, rlimit=40)
+            res2, diags2, wall2, cmd2, stderr2 = run_verus(path, rlimit=40)
+            if res2 is None:
+                raise Undecided(f'verus produced no JSON for {unit_name} (retry with 4x rlimit): {stderr2[-1500:]}')
             fails, front = classify(diags2, text, table)
+            if front:
+                raise Undecided(f'{unit_name}: Verus front-end error on retry: ' + '; '.join(f['msg'] for f in front[:3]))
             if any('esource limit' in x.get('message', '') for x in diags2 if x.get('level') == 'error'):
                 raise Undecided(f'{unit_name}: resource limit exceeded even with 4x rlimit')
             res, diags, wall = res2, diags2, wall + wall2
@@ -154,7 +160,7 @@ def verify_unit(template, repo_root, workdir, unit_name):
             raise Undecided(f'{unit_name}: vacuity run front-end error: ' + '; '.join(x['msg'] for x in vfront[:3]))
         failed_fns = set()
         for d in vdiags:
-            if d.get('level') == 'error' and 'postcondition not satisfied' in d.get('message', ''):
+            if d.get('level') == 'error' and ('postcondition not satisfied' in d.get('message', '') or 'esource limit' in d.get('message', '')):
                 for s in d.get('spans', []):
                     ent = vtable[s['line_start'] - 1] if s['line_start'] - 1 < len(vtable) else {}
                     if ent.get('fn'):
